@@ -305,7 +305,7 @@ func (c *Ctx) textByte(exclude string) byte {
 		var b byte
 		switch c.rng.Intn(4) {
 		case 0:
-			sp := "\"' :@+;>#,()_-.*\\"
+			sp := "\"' :@+;>#,()_-.*\\%%"
 			b = sp[c.rng.Intn(len(sp))]
 		case 1:
 			b = byte(c.rng.Intn(256))
